@@ -138,7 +138,7 @@ def gen(rng, tier, run):
             roots.append(rng.choice(roots))
         ops.append(['closegraph', n, edges, roots])
     ops.append(['close', sorted(rng.sample(oks, rng.randrange(1, min(len(oks), 5) + 1)))])
-    return {'ops': ops}
+    return {'ops': ops, 'kwd': rng.random() < 0.3}
 
 
 def shrink(case):
@@ -188,10 +188,17 @@ def shrink(case):
 # implementation
 # ------------------------------------------------------------------------------------------------
 
-def make_func(fid, name, calls):
-    def func(*args, **kwargs):
-        calls.append((fid, args, kwargs))
-        return ('ret', fid)
+def make_func(fid, name, calls, kwd=False):
+    if kwd:
+        # functions that come out of one `def` and differ in a keyword-only default only (same code object, same
+        # positional defaults, same closure cells): still one function per request
+        def func(*args, _fid=fid, **kwargs):
+            calls.append((_fid, args, kwargs))
+            return ('ret', _fid)
+    else:
+        def func(*args, **kwargs):
+            calls.append((fid, args, kwargs))
+            return ('ret', fid)
     func.__name__ = name
     func.__qualname__ = name
     return func
@@ -314,7 +321,7 @@ def run_impl(case, run):
             update_wrapper(wrapped, funcs[('base', base)])
             return wrapped
         if fid not in funcs:
-            funcs[fid] = make_func(fid, name, calls)
+            funcs[fid] = make_func(fid, name, calls, kwd=bool(case.get('kwd')))
         return funcs[fid]
 
     def resolve(idx):
